@@ -90,13 +90,13 @@ def wire_lines(data, encoding):
 
 def gen_replies(tier, rng):
     out = []
-    maxn = 3
+    maxn = 4 if tier != "quick" else 4
     for code in ("250", "251"):
         for lst in (False, True):
             for n in range(2 if lst else 1, maxn + 1):
                 combos = list(itertools.product(KINDS, repeat=n))
-                if tier == "quick" and len(combos) > 600:
-                    combos = rng.sample(combos, 600)
+                if len(combos) > (600 if tier == "quick" else 6000):
+                    combos = rng.sample(combos, 600 if tier == "quick" else 6000)
                 for lines in combos:
                     out.append((code, list(lines), lst))
     return out
